@@ -33,11 +33,82 @@ func c15ParamOfType(f *ssa.Function, suffix string) *ssa.Parameter {
 	return nil
 }
 
+// c15ResolveField looks through a struct temporary: a read of field i of a
+// local struct variable denotes the value of the unique store to that field
+// (`kv := KV{Key: a, Val: b}; … kv.Key` ≡ a).
+func c15ResolveField(v ssa.Value) ssa.Value {
+	for n := 0; n < 4; n++ {
+		v = core.Forward(v)
+		var al *ssa.Alloc
+		idx := -1
+		switch x := v.(type) {
+		case *ssa.Field:
+			if u, ok := x.X.(*ssa.UnOp); ok && u.Op == token.MUL {
+				if a, ok := u.X.(*ssa.Alloc); ok {
+					al, idx = a, x.Field
+				}
+			}
+		case *ssa.UnOp:
+			if fa, ok := x.X.(*ssa.FieldAddr); ok && x.Op == token.MUL {
+				if a, ok := fa.X.(*ssa.Alloc); ok {
+					al, idx = a, fa.Field
+				}
+			}
+		}
+		if al == nil {
+			return v
+		}
+		var val ssa.Value
+		cnt := 0
+		for hop := 0; hop < 3 && al != nil; hop++ {
+			var whole []*ssa.Store
+			val, cnt = nil, 0
+			for _, r := range *al.Referrers() {
+				switch y := r.(type) {
+				case *ssa.FieldAddr:
+					if y.Field != idx {
+						continue
+					}
+					for _, r2 := range *y.Referrers() {
+						if st, ok := r2.(*ssa.Store); ok && st.Addr == ssa.Value(y) {
+							val, cnt = st.Val, cnt+1
+						}
+					}
+				case *ssa.Store:
+					if y.Addr == ssa.Value(al) {
+						whole = append(whole, y)
+					}
+				}
+			}
+			if len(whole) == 0 {
+				break
+			}
+			// a by-value copy of another struct variable (spilled parameter of an inlined helper)
+			al2 := (*ssa.Alloc)(nil)
+			if cnt == 0 && len(whole) == 1 {
+				if u, ok := whole[0].Val.(*ssa.UnOp); ok && u.Op == token.MUL {
+					al2, _ = u.X.(*ssa.Alloc)
+				}
+			}
+			if al2 == nil {
+				cnt = 0
+				break
+			}
+			al = al2
+		}
+		if cnt != 1 {
+			return v
+		}
+		v = val
+	}
+	return v
+}
+
 // c15Describes returns the sorted set of structural descriptors of vs.
 func c15Describes(vs []ssa.Value) []string {
 	set := map[string]bool{}
 	for _, v := range vs {
-		set[core.Describe(v)] = true
+		set[core.Describe(c15ResolveField(v))] = true
 	}
 	var out []string
 	for k := range set {
